@@ -62,6 +62,16 @@ theorem preGate_within_known_finding : ∀ n ∈ Gen.preGate, n ∈ ["SYNC", "PS
     the check searches for a failing input with the property's oracle alone. -/
 theorem tree_preGate_guards_understood : Gen.preGateUnknownGuard = [] := by decide
 
+/-- The translator could read every shape it relies on (frame loop of `process_connection`, the gate and its
+    `match`, the dispatch `match`).  When this fails the tables hold inert defaults, the driver predicts nothing
+    and the check searches with the property's oracle alone. -/
+theorem tree_source_readable : Gen.unreadable = [] := by decide
+
+/-- Frames kept back for later execution (`Connection::deferred_frames`) either do not exist or are filled only for
+    a connection that just blocked, with the rest of its own batch, and drained only into the same
+    connection's next `process_connection`, where each frame meets the gate again. -/
+theorem tree_deferral_understood : Gen.deferral = "absent" ∨ Gen.deferral = "blocked-only" := by decide
+
 /-- The prescribed inclusion fails for the pinned order of processing: SYNC is handled before the gate and is
     not one of AUTH / PING / QUIT. -/
 theorem preGate_subset_allow_fails_pinned : ¬ ∀ n ∈ Cfg.pinned.preGate, n ∈ Spec.harmless := by decide
@@ -333,6 +343,24 @@ theorem pipeline_position_irrelevant (cfg : Cfg) {h : Dispatch D R} (hh : Honest
 example :
     Code.runFrames tree noDispatch witnessServer 1 [.cmd PING [], .cmd [71, 69, 84] [some [107]], .cmd PING [some [120]]]
       = (witnessServer, [.pong, .error .noauth, .echo (some [120])]) := rfl
+
+/-- `deferral_needs_authentication`.  The loop that stops at a command that blocked and keeps the rest of the
+    batch for later never keeps anything back for a connection that has not authenticated: such a connection
+    cannot block, so its whole pipeline is answered at once, exactly as by the plain loop — in particular
+    `BLPOP k 0; GET secret` of an unauthenticated connection is two refusals, not a parked GET. -/
+theorem deferral_needs_authentication (cfg : Cfg) {h : Dispatch D R} (hh : Honest h) (s : Server D) (c : Nat)
+    (pw : Bytes) (hpw : s.password = some pw) (hc : low (stateOf s.conns c))
+    (reqs : List Req) (hno : ∀ r ∈ reqs, isExactAuth cfg pw r = false) :
+    Code.runFramesD cfg h s c reqs = ((Code.runFrames cfg h s c reqs).1, (Code.runFrames cfg h s c reqs).2, []) :=
+  runFramesD_low hh c pw reqs hno s hpw hc
+
+/-- Non-vacuity of the deferring loop: an authenticated connection whose BLPOP blocks keeps the rest back. -/
+example :
+    let h : Dispatch Nat Unit := fun s c n _ =>
+      (if n = [66] then { s with conns := setState s.conns c .blocked } else s, ())
+    let s : Server Nat := { password := some [112], conns := [⟨1, .authenticated⟩], store := 0, subs := [], replicas := [], monitors := [] }
+    (Code.runFramesD tree h s 1 [.cmd [71] [], .cmd [66] [], .cmd [71] [], .cmd PING []]).2.2 = [.cmd [71] [], .cmd PING []] := by
+  decide
 
 /-- The refused command's reply sits at index `pre.length` of the reply list. -/
 theorem pipeline_reply_at_position (cfg : Cfg) {h : Dispatch D R} (hh : Honest h) (s : Server D) (c : Nat)
